@@ -316,6 +316,55 @@ func main() {
 						}
 					}
 				}
+				// bare uses: a package-level variable used as a value (assigned to a field or local,
+				// passed as an argument, returned) rather than indexed, sliced, ranged over, measured
+				// or used as a method receiver; for slice, map and pointer variables this aliases shared
+				// memory into an instance
+				var stack []ast.Node
+				ast.Inspect(fd.Body, func(nd ast.Node) bool {
+					if nd == nil {
+						stack = stack[:len(stack)-1]
+						return true
+					}
+					if id, ok := nd.(*ast.Ident); ok && glob[id.Name] && !local[id.Name] && len(stack) > 0 {
+						bare := true
+						switch par := stack[len(stack)-1].(type) {
+						case *ast.IndexExpr:
+							bare = par.X != ast.Expr(id)
+						case *ast.SliceExpr:
+							bare = par.X != ast.Expr(id)
+						case *ast.SelectorExpr:
+							bare = false
+						case *ast.RangeStmt:
+							bare = par.X != ast.Expr(id)
+						case *ast.UnaryExpr:
+							bare = par.Op != token.AND
+						case *ast.CallExpr:
+							if fn2, ok := par.Fun.(*ast.Ident); ok && (fn2.Name == "len" || fn2.Name == "cap") {
+								bare = false
+							}
+							if par.Fun == ast.Expr(id) {
+								bare = false
+							}
+						case *ast.AssignStmt:
+							for _, l := range par.Lhs {
+								if l == ast.Expr(id) {
+									bare = false // a write, recorded below
+								}
+							}
+						case *ast.KeyValueExpr:
+							bare = par.Key != ast.Expr(id)
+						}
+						if bare {
+							if addrs[id.Name] == nil {
+								addrs[id.Name] = map[string]bool{}
+							}
+							addrs[id.Name][fn+"="] = true
+						}
+					}
+					stack = append(stack, nd)
+					return true
+				})
 				ast.Inspect(fd.Body, func(nd ast.Node) bool {
 					switch x := nd.(type) {
 					case *ast.AssignStmt:
